@@ -1005,10 +1005,11 @@ class OpaqueEnumParsable(Vector):
     @classmethod
     def _parse(cls, parsable):
         opaque, parsed_length = super(OpaqueEnumParsable, cls)._parse(parsable)
-        code = six.ensure_text(
-            b''.join([six.int2byte(opaque_item) for opaque_item in opaque]),
-            cls.get_encoding()
-        )
+        code_bytes = b''.join([six.int2byte(opaque_item) for opaque_item in opaque])
+        try:
+            code = six.ensure_text(code_bytes, cls.get_encoding())
+        except UnicodeError as e:
+            six.raise_from(InvalidValue(code_bytes, cls), e)
 
         try:
             parsed_object = next(iter([
